@@ -5,7 +5,10 @@ every interleaving; Accounting, NoWrap, RefCount hold in every state (no slot bo
 pool entries of failed allocations are harmless).
 Implementation level: for every TLC-generated behaviour, the last operation is executed with a
 failure at its k-th allocator call and from its k-th call on, for every k (the fault-free run counts
-the calls), plus random failure subsets over the whole behaviour; the observations are validated by
+the calls), plus random failure subsets over the whole behaviour (each operation of such a run is executed
+only while it still satisfies Document!Legal in the state actually reached: a failed add() shifts what the
+later operations address, and an operation that has become an overlapping copy or a use of a dangling
+reference is outside the quantifier (harness/common/concretelegal.hpp)); the observations are validated by
 TLC against FaultTrace.tla (postcondition form, evaluated on the abstract state Document!Step gives
 for the fault-free prefix): reported, overflowed(), well formed, values outside the modified path
 unchanged, references outside it still designate their value, nothing allocated after clear(), the
@@ -123,6 +126,7 @@ def run(tier):
             ("two-docs", dc.mc_constants(2, 2, ["a"], 0, 1, 2, 4, 2, "tiny", emitmod=3 if quick else 1))]
     events_total = 0
     fired_total = 0
+    chaos = {"chaos_runs": 0, "chaos_ops": 0, "chaos_truncated": 0}
     for name, consts in gens:
         r, nd, n = dc.generate(chk, name, consts, wd, check_props=False)
         if nd is None:
@@ -159,6 +163,8 @@ def run(tier):
             kv = vlib.kvs(summ[0])
             events_total += int(kv["events"])
             fired_total += int(kv["fired"])
+            for key in chaos:
+                chaos[key] += int(kv.get(key, 0))
             good.append((g, out))
 
         def validate(item):
@@ -191,9 +197,14 @@ def run(tier):
                        "calls of the fault-free run; plus one random failure subset per behaviour); non-trivial = the "
                        "injected failure actually fired")
     chk.cov["geometries"] = geoms
+    chk.cov["multi_failure_runs"] = dict(runs=chaos["chaos_runs"], operations_executed=chaos["chaos_ops"],
+                                         ended_early_at_an_operation_no_longer_legal=chaos["chaos_truncated"])
     chk.level = "model_checking"
     chk.assumptions += ["shrinking reallocations never fail (excluded by the property)",
                         "the exact residue of a failed operation is not prescribed: postconditions only",
+                        "multi-failure runs end at the first operation that, in the state the earlier failures "
+                        "produced, is an overlapping copy (known finding C04 alias-overlap, independent of allocation "
+                        "failures) or uses a reference whose element no longer exists",
                         "deserialization under failure: the four texts of DocumentMC inside document histories, and "
                         "seeded JSON / MessagePack inputs (valid, malformed, filtered, repeated strings) read on their "
                         "own with a failure at each of the first 40 (quick) / 400 (thorough) allocator calls"]
